@@ -216,8 +216,10 @@ def run(chk, prog, tier):
     movers = {fn for fn in lib if set(growers) & EFF.reachable(roles.g, [fn])}
     users = sorted(set(roles.emitters) | {roles.driver} | set(roles.entries))
     stale_rule(chk, prog, users, movers)
-    # room check result is honoured (GATE) so growth happens before the write
+    # room check result is honoured (GATE) so growth happens before the write, and the test that triggers growth is sound
     PL.gate_rule(chk, prog, roles)
+    from checks import C07
+    C07.room_predicate(chk, prog, roles)
     chk.explanation = (
         "Decides the growth protocol: the code buffer is a private anonymous RWX mapping of buffer_len bytes; growth calls "
         "mremap(buffer, buffer_len, buffer_len + step, MREMAP_MAYMOVE), compares the result with MAP_FAILED before touching the "
